@@ -1,6 +1,7 @@
 package checks
 
 import (
+	"verifh/fakenet"
 	"sync/atomic"
 	"sync"
 	"fmt"
@@ -468,6 +469,106 @@ func runC11OverlapWhileAnswering(r *rep.Report) (key, msg string, held bool) {
 	return
 }
 
+// runC11Simultaneous: two polls (or two data requests) of one session arrive at the same
+// moment: both are past the transport's "is one outstanding?" test before either is published
+// (hook polling.onPollRequest.beforePublish / polling.onDataRequest.beforePublish).  One of them
+// is the overlapping one: 400, and the session closes with a transport error; both get exactly
+// one response.
+func runC11Simultaneous(kind string, rev int, jsonp bool, r *rep.Report) (key, msg string, held bool) {
+	rig.Bubble(r.T(), func() {
+		so := &config.ServerOptions{}
+		so.SetPingInterval(20 * time.Second)
+		so.SetAllowEIO3(true)
+		w := rig.NewWorld(rig.Options{Server: so})
+		defer w.Finish()
+		cl, err := w.Connect(rig.ClientCfg{Rev: rev, Transport: "polling", JSONP: jsonp})
+		rig.Wait()
+		sock := w.Socket(0)
+		if err != nil || sock == nil {
+			key, msg = "c11-handshake-failed", fmt.Sprint(err)
+			return
+		}
+		point := "polling.onPollRequest.beforePublish"
+		w.Gate.Arm(point, -1)
+		var x1, x2 *rig.Exchange
+		var slow *fakenet.Conn
+		if kind == "poll" {
+			x1 = cl.PollStart()
+			rig.Wait()
+			x2 = cl.PollStart()
+			rig.Wait()
+		} else {
+			// the first data request stays outstanding while it is released: part of its body is
+			// still on its way
+			point = "polling.onDataRequest.beforePublish"
+			w.Gate.Arm(point, -1)
+			slow, _ = w.Dial()
+			q := "/engine.io/?EIO=" + fmt.Sprint(rev) + "&transport=polling&sid=" + cl.Sid
+			ct := "text/plain"
+			body := "4abcdefghi"
+			if rev == 3 {
+				body = "10:4abcdefghi"
+			}
+			if jsonp {
+				q += "&j=0"
+				ct = "application/x-www-form-urlencoded"
+				body = "d=" + body
+			}
+			head := fmt.Sprintf("POST %s HTTP/1.1\r\nHost: engine\r\nConnection: close\r\nContent-Type: %s\r\nContent-Length: %d\r\n\r\n", q, ct, len(body))
+			slow.Write([]byte(head + body[:len(body)-4]))
+			rig.Wait()
+			x2 = cl.PostStart([]refcodec.Packet{refcodec.Text(refcodec.Message, "second")})
+			rig.Wait()
+			defer slow.Close()
+		}
+		ps := w.Gate.Parked()
+		if len(ps) != 2 {
+			r.Inconclusive(fmt.Sprintf("simultaneous %s requests: %d goroutines reached %s, expected 2", kind, len(ps), point))
+			w.Gate.ReleaseAll()
+			return
+		}
+		held = true
+		// the first one becomes the outstanding request ...
+		ps[0].Release()
+		rig.Wait()
+		// ... and the second one, which passed the test before that, is the overlapping one
+		w.Gate.ReleaseAll()
+		time.Sleep(100 * time.Millisecond)
+		rig.Wait()
+		res2, ok2 := x2.WaitFor(time.Second)
+		ev := w.Tap.Of(sock.Id(), "close")
+		if !ok2 || res2.Status != 400 {
+			key, msg = "c11-simultaneous-"+kind+"-requests-both-accepted", fmt.Sprintf("two %s requests of one session arrived together (both past the outstanding-request test, the first one still outstanding when the second proceeds): second answered=%v status %d, session %s, close events %v", kind, ok2, res2.Status, sock.ReadyState(), ev)
+			x2.Abort()
+			if x1 != nil {
+				x1.Abort()
+			}
+			return
+		}
+		if len(ev) != 1 || ev[0].Str != "transport error" {
+			key, msg = "c11-overlap-did-not-close-session", fmt.Sprintf("one of two simultaneous %s requests was refused with 400 but close events are %v", kind, ev)
+			return
+		}
+		if x1 != nil {
+			if _, ok1 := x1.WaitFor(time.Second); !ok1 {
+				key, msg = "c11-no-response", fmt.Sprintf("two simultaneous %s requests: the first one is still unanswered after the session closed", kind)
+				x1.Abort()
+				return
+			}
+		}
+		if slow != nil {
+			slow.Write([]byte("fghi"))
+			time.Sleep(time.Millisecond)
+			rig.Wait()
+		}
+		time.Sleep(time.Second)
+		rig.Wait()
+		key, msg = judgeResponses(w, nil)
+		cl.Stop()
+	})
+	return
+}
+
 // runC11AbortWhileAnswering: the client drops the connection of a poll (or of a data request)
 // exactly while the server is writing that request's response (the header write is held).  The
 // handler may only return once the response writer is no longer in use.
@@ -531,6 +632,25 @@ func TestC11(t *testing.T) {
 	r := rep.New(t, "C11")
 	defer r.Flush()
 	r.Rule("PRNG polling/JSONP histories over real net/http: overlapping polls, overlapping data requests (first one with a slow body), a pending poll while the session closes by each cause (including the client's own close packet in a data request), polls and data requests aborted by the client mid-flight, multi-packet data requests with a listener that takes time (acknowledgement ordering by tap sequence numbers), a revision-4 data request with a binary content type, mixed conformant histories with server sends and heartbeats, and a data request whose listener is running when the session is closed from another goroutine while the first header write is held (harness-side gate in the ResponseWriter); oracle: counting ResponseWriter (exactly one WriteHeader per non-aborted exchange), handler return log, 400 + 'transport error' on overlap, bubble goroutine-leftover scan 40 s after everything closed; distinct = scenario signature")
+	if r.Lane == 0 {
+		for k := 0; k < r.N(8, 200); k++ {
+			for _, kind := range []string{"poll", "data"} {
+				for _, v := range []struct {
+					rev   int
+					jsonp bool
+				}{{4, false}, {3, false}, {4, true}} {
+					key, msg, held := runC11Simultaneous(kind, v.rev, v.jsonp, r)
+					r.Case(fmt.Sprintf("simultaneous/%s/v%d/%v", kind, v.rev, v.jsonp), held)
+					if held {
+						r.Obs("gate:two_"+kind+"_requests_past_the_outstanding_test", 1)
+					}
+					if key != "" {
+						r.Violation(key, msg, map[string]any{"lane": "two requests of one kind arriving together (hooks polling.on{Poll,Data}Request.beforePublish)", "request": kind, "rev": v.rev, "jsonp": v.jsonp})
+					}
+				}
+			}
+		}
+	}
 	if r.Lane == 3%r.Lanes {
 		for k := 0; k < r.N(8, 200); k++ {
 			for _, kind := range []string{"poll", "data"} {
